@@ -649,5 +649,41 @@ KEEP_AGENTS = [
     ('R08-2', 'DIFF', 'R_C08_2.diff', None, ALL, 'match -> if-let / Option::map_or; filter-into-new-Vec -> Vec::retain in place; if/else -> early return guard; deferred-init let + if/else statement -> if-expression; nested call -> named temporary: sr'),
     ('R08-3', 'DIFF', 'R_C08_3.diff', None, ALL, 'extract helper method for duplicated tail; index loops -> iterators (iter_mut + zip, for-in over reference): src/kinematics_impl.rs: the identical tail of inverse_continuing and inverse_continuing_5do'),
     ('R08-4', 'DIFF', 'R_C08_4.diff', None, ALL, 'extract helper methods in the wrappers; for_each closure -> for loop; temporaries removed: src/parallelogram.rs: the four copies of the post-processing `solutions.iter_mut().for_each(|x| x[coupled] +='),
+    ('R01-1', 'DIFF', 'R_C01_1.diff', None, ALL, 'extract helper function + inverted condition with early break (guard clause): The three copies of the while angle > PI { angle -= 2*PI } while angle < -PI { angle += 2*PI } wrap-around (singular J4/'),
+    ('R01-2', 'DIFF', 'R_C01_2.diff', None, ALL, 'index loops -> iterator chain (array::map, enumerate, filter_map, all, iter_mut, extend) + inlined helper: inverse_intern_5_dof: the 8x6 candidate table is built with theta.map(|branch| ...) starting '),
+    ('R01-3', 'DIFF', 'R_C01_3.diff', None, ALL, 'control-flow restructuring: deferred-init if/else -> match expression, index loop with break -> Iterator::find + let-else, if-let removed, s/s_n as a tuple from an if-expression, index loops -> iter_m'),
+    ('R01-4', 'DIFF', 'R_C01_4.diff', None, ALL, 'de-duplication of copy-pasted blocks into closures over the branch index; data carried in fixed arrays (array::from_fn, array::map, array destructuring) instead of 16 named temporaries: inverse_intern'),
+    ('R11-1', 'DIFF', 'R_C11_1.diff', None, ALL, 'loop -> iterator chain; index loop -> zip; if-let/else -> Option::map: KinematicsWithShape::remove_collisions: the push-loop over the solutions becomes solutions.into_iter().filter(|s| !body.collides('),
+    ('R11-2', 'DIFF', 'R_C11_2.diff', None, ALL, 'de-duplicate constructors (delegate to existing method); if/else -> match on bool; temporaries removed, .clone() of Copy values dropped: KinematicsWithShape::new no longer repeats the struct literal o'),
+    ('R11-3', 'DIFF', 'R_C11_3.diff', None, ALL, 'extract helper; if/else -> short-circuit &&; if/else -> bool::then_some; early returns -> Option combinators (or_else / unwrap_or_else): collisions.rs: the repeated forward_with_joint_poses + cast::<'),
+    ('R11-4', 'DIFF', 'R_C11_4.diff', None, ALL, 'in-place Vec::retain instead of rebuild loop; temporaries inlined; if/else-if chain -> exhaustive match; loop range tightened instead of guard condition: remove_collisions takes the Vec as mut soluti'),
+    ('R13-1', 'DIFF', 'R_C13_1.diff', None, ALL, 'extract helper + guard clause / early return + match -> matches! (iterator chain -> explicit push loop): src/path_plan/rrt_to.rs: the computation of q_new in Tree::extend is extracted into an associat'),
+    ('R13-2', 'DIFF', 'R_C13_2.diff', None, ALL, 'while-let loop -> iterator chain (iter::successors/map/collect), match -> if-let with or-pattern, in-place reverse/append -> rev().chain().collect(), temporaries removed: src/path_plan/rrt_to.rs: Tree'),
+    ('R13-3', 'DIFF', 'R_C13_3.diff', None, ALL, 'Result/iterator combinators -> `?` and for loop, manual length check + element copy -> TryFrom<Vec>, expect -> let-else, try_from on value -> try_into to a borrowed array, tail expression instead of t'),
+    ('R13-4', 'DIFF', 'R_C13_4.diff', None, ALL, 'inline nested helper into a closure + array literal -> std::array::from_fn, common sub-expression hoisted out of both branches, mutable re-assignment -> immutable bindings/if-expression, iterator all('),
+    ('R14-1', 'DIFF', 'R_C14_1.diff', None, ALL, 'extract helper method + loop -> iterator chain + if/else -> then_some, nested if-let -> Option::is_some_and guard: RobotBody::non_colliding_offsets: the 12 (joint, source) candidates are built with (0'),
+    ('R14-2', 'DIFF', 'R_C14_2.diff', None, ALL, 'if-let/else-if chain -> Option combinators; boolean expression -> guard clause + match (De Morgan, inverted predicate); loop range tightened instead of in-loop test: SafetyDistances::min_distance is r'),
+    ('R14-3', 'DIFF', 'R_C14_3.diff', None, ALL, 'data carried differently (Vec of tuples -> fixed array of a small struct via array::from_fn), iterator collect -> explicit insert loop, temporaries introduced, if/else -> usize::from(bool): RobotBody:'),
+    ('R14-4', 'DIFF', 'R_C14_4.diff', None, ALL, 'for loops with push -> Vec::extend over enumerate/map/filter/map chains; nested if + if-let -> single tuple if-let; if/else-if on enum equality -> match; Option::into_iter().collect() -> match buildin'),
+    ('R15-1', 'DIFF', 'R_C15_1.diff', None, ALL, 'iterator chain + collect + second loop fused into one index loop; temporaries removed/introduced: compute_jacobian: the `(0..6).into_iter().map(..).collect::<Vec<_>>()` of (delta_position, delta_orien'),
+    ('R15-2', 'DIFF', 'R_C15_2.diff', None, ALL, 'if-let/else with deferred initialisation and nested match -> single match expression with map_err + ?; duplicated multiplication merged: velocities_from_vector: instead of a late-initialised `joint_ve'),
+    ('R15-3', 'DIFF', 'R_C15_3.diff', None, ALL, 'extract helper function; delegate one entry point to another (remove duplicated code): The duplicated translation vector + rotation.scaled_axis() -> Vector6 code in Jacobian::velocities and Jacobian'),
+    ('R15-4', 'DIFF', 'R_C15_4.diff', None, ALL, 'data carried differently (Vec of Vector3 tuples -> fixed array of Vector6 via std::array::from_fn, Matrix6::from_columns instead of zeros + view copies); loop-invariant hoisted: compute_jacobian: the '),
+    ('R16-1', 'DIFF', 'R_C16_1.diff', None, ALL, 'extract helper methods (data in / data out); for_each closure -> for loop: The coupling update repeated in the four inverse entry points is moved into a private Parallelogram::couple(Solutions) -> Sol'),
+    ('R16-2', 'DIFF', 'R_C16_2.diff', None, ALL, 'iterator for_each -> index loop; temporaries introduced; independent statements re-ordered: In all four inverse entry points solutions.iter_mut().for_each(|x| ...) becomes for i in 0..solutions.len() '),
+    ('R16-3', 'DIFF', 'R_C16_3.diff', None, ALL, 'in-place mutation -> consuming iterator chain (into_iter/map/collect); compound assignment expanded; struct destructuring of fields: The inverse entry points no longer keep a mutable `solutions` local'),
+    ('R16-4', 'DIFF', 'R_C16_4.diff', None, ALL, 'higher-order helper taking a closure; named closure; guard clause / early return: Two private generic helpers are introduced: inverse_with(|robot| robot.inverse...(..)) runs the supplied inner solver,'),
+    ('R17-1', 'DIFF', 'R_C17_1.diff', None, ALL, 'named temporaries + && chain -> array of side pairs + iterator all(): frame.rs distances_match: the six distance temporaries and the three-term && chain are replaced by an array of (source side, targe'),
+    ('R17-2', 'DIFF', 'R_C17_2.diff', None, ALL, 'extract helper function + Option combinator (ok_or_else + ?) instead of guard-clause returns: frame.rs Frame::frame: the duplicated source/target code (difference vectors, colinearity guard, normalize'),
+    ('R17-3', 'DIFF', 'R_C17_3.diff', None, ALL, 'deduplicate into private methods; deferred-initialised let -> if expression; index loops -> iter_mut/zip: kinematics_impl.rs inverse_continuing and inverse_continuing_5dof (called by Frame::forward_tr'),
+    ('R17-4', 'DIFF', 'R_C17_4.diff', None, ALL, 'if/else on a map_or value + unwrap -> match with guard; paired a/b temporaries -> cost closure; temporaries removed: kinematics_impl.rs sort_by_closeness (ordering of the solutions returned by forward'),
+    ('R18-1', 'DIFF', 'R_C18_1.diff', None, ALL, 'explicit 6-element array literal -> std::array::from_fn; result temporary removed; 2.0 * PI -> std::f64::consts::TAU: Constraints::random_angles builds the joint array with std::array::from_fn over th'),
+    ('R18-2', 'DIFF', 'R_C18_2.diff', None, ALL, 'extract helper method + hoist common expression out of both branches + inner fn -> closure + early return: The arc width computation (plain difference for from < to, otherwise rem_euclid over a full t'),
+    ('R18-3', 'DIFF', 'R_C18_3.diff', None, ALL, 'data carried differently (one RNG handle passed by &mut instead of one per call) + array literal -> zip loop filling an array + mutable-if -> match with guard + `from +` factored out of the branches: '),
+    ('R18-4', 'DIFF', 'R_C18_4.diff', None, ALL, 'guard clause / early return, inverted condition with swapped branches, shadowing instead of mutation, enumerate+index -> zip, chained call -> named temporary (RRT sampling callback): random_angle retu'),
+    ('R19-1', 'DIFF', 'R_C19_1.diff', None, ALL, 'extract generic helper; two if-statements -> one match on length: src/parameters_from_file.rs: the duplicated pad 5 entries to 6, otherwise InvalidLength, then try_into tail of read_sign_corrections'),
+    ('R19-2', 'DIFF', 'R_C19_2.diff', None, ALL, 'equivalent library call, Option/Result combinators -> match / let-else, closure for repeated field extraction, mutation -> array pattern rebuild, struct field init shorthand: src/parameters_from_file.'),
+    ('R19-3', 'DIFF', 'R_C19_3.diff', None, ALL, 'iterator chain + collect::<Result> -> for loop with ?, closure body extracted into a helper fn, if-let/else -> match with shared error closure, Option combinators -> match on enum variants: src/parame'),
+    ('R19-4', 'DIFF', 'R_C19_4.diff', None, ALL, 'single format! -> incremental String building with a loop over (name, value) pairs; map/collect/join -> index-aware loop in a local generic fn; inverted condition with swapped branches; inline format '),
 ]
 KEEP += KEEP_AGENTS
